@@ -168,7 +168,7 @@ impl Check for SelCheck {
         "C11/selection".into()
     }
     fn classes(&self) -> &'static [&'static str] {
-        &["tied objectives", "duplicate by value", "requested 0", "documented unusable input", "via Selection::select", "+inf objective", "negative objective", "population >= 3", "requested == population size", "distinct objective values within a few representable values of each other", "zeros of both signs", "a best-so-far individual that is not a member (and counters) present in the state"]
+        &["tied objectives", "duplicate by value", "requested 0", "documented unusable input", "via Selection::select", "+inf objective", "negative objective", "population >= 3", "requested == population size", "distinct objective values within a few representable values of each other", "zeros of both signs", "a best-so-far individual that is not a member (and counters) present in the state", "the generator first replays a script of edge-value words (derived from the seed)"]
     }
     fn oracle(&self, c: &Case) -> Outcome {
         let mut cl = 0;
@@ -258,10 +258,13 @@ fn oracle(c: &Case, cl: &mut u64) -> Result<(), Failure> {
         };
     }
 
+    if !crate::fixtures::script_of(c.seed).is_empty() {
+        *cl |= 4096;
+    }
     // run: selected = (views, optional addresses relative to the source slice)
     let result: Result<(Vec<V>, Option<Vec<usize>>), String>;
     if c.direct {
-        let mut rng = Random::new(c.seed);
+        let mut rng = crate::fixtures::random_for(c.seed);
         macro_rules! run_direct {
             ($comp:expr) => {{
                 let comp = $comp;
@@ -293,7 +296,7 @@ fn oracle(c: &Case, cl: &mut u64) -> Result<(), Failure> {
         }
         ps.push(source.clone());
         state.insert(ps);
-        state.insert(Random::new(c.seed));
+        state.insert(crate::fixtures::random_for(c.seed));
         if c.distractor % 3 != 0 {
             let fin: Vec<f64> = objs.iter().cloned().filter(|o| o.is_finite()).collect();
             let v = if c.distractor % 3 == 1 { fin.iter().cloned().fold(0.0, f64::min) - 1.0 } else { fin.iter().cloned().fold(0.0, f64::max) };
